@@ -313,8 +313,9 @@ func vStr(s string) *lang.Val { return &lang.Val{T: "string", S: []byte(s)} }
 
 var tplInts = []int64{0, 1, 2, 3, 4, 5, 6, 7, 9, 10, -1, -4, 255, 1 << 40}
 
-// tplInputs draws a complete assignment of in0..in3.
-func tplInputs(t *rapid.T) map[string]*lang.Val {
+// tplInputs draws a complete assignment of in0..in3 (ill: now and then with an
+// ill-typed scalar, which makes the program fail at a deterministic place).
+func tplInputs(t *rapid.T, ill bool) map[string]*lang.Val {
 	out := map[string]*lang.Val{}
 	out["in0"] = vInt(tplInts[rapid.IntRange(0, len(tplInts)-1).Draw(t, "in0")])
 	out["in1"] = vStr(vStrs[rapid.IntRange(0, len(vStrs)-1).Draw(t, "in1")])
@@ -333,6 +334,9 @@ func tplInputs(t *rapid.T) map[string]*lang.Val {
 	}
 	out["in3"] = &lang.Val{T: "map", Share: 3, Keys: []string{"a", "b"},
 		Kids: []*lang.Val{vInt(int64(rapid.IntRange(0, 9).Draw(t, "in3a"))), b}}
+	if !ill {
+		return out
+	}
 	// a few ill-typed scalars (deterministic error paths)
 	switch rapid.IntRange(0, 24).Draw(t, "illTyped") {
 	case 0:
@@ -358,12 +362,12 @@ func subset(t *rapid.T, in map[string]*lang.Val) map[string]*lang.Val {
 
 func genClonesTemplate(t *rapid.T) *payload {
 	tp := genTemplateProgram(t, true)
-	p := &payload{Kind: "clones", Family: "template", Source: tp.src.String(), Modules: tp.mods, Base: tplInputs(t)}
+	p := &payload{Kind: "clones", Family: "template", Source: tp.src.String(), Modules: tp.mods, Base: tplInputs(t, true)}
 	k := drawClones(t)
 	part := func(i int, mayReplace bool) partCfg {
 		c := partCfg{Runs: drawRuns(t), Reset: rapid.Bool().Draw(t, "reset"), Ctx: rapid.IntRange(0, 4).Draw(t, "ctx") == 0,
 			Stagger: rapid.IntRange(0, 3).Draw(t, "stagger")}
-		c.Inputs = tplInputs(t)
+		c.Inputs = tplInputs(t, true)
 		if rapid.IntRange(0, 2).Draw(t, "partial") == 0 {
 			c.Inputs = subset(t, c.Inputs)
 		}
